@@ -629,11 +629,11 @@ func init() {
 			"json.insertions", "js.insertions", "insertions.beyond_first_line"},
 		Streams: []fw.Stream{
 			{Name: "probes", Quick: len(c15Probes), Thorough: len(c15Probes), Run: c15Probe},
-			{Name: "texts", Quick: 12000, Thorough: 400000, Run: c15Texts},
+			{Name: "texts", Quick: 12000, Thorough: 800000, Run: c15Texts},
 			{Name: "manylines", Quick: 16, Thorough: 64, Run: c15Many},
-			{Name: "hook", Quick: 160000, Thorough: 4000000, Run: c15Hook},
-			{Name: "insjson", Quick: 1500, Thorough: 30000, Run: c15InsJSON},
-			{Name: "insjs", Quick: 1500, Thorough: 30000, Run: c15InsJS},
+			{Name: "hook", Quick: 160000, Thorough: 8000000, Run: c15Hook},
+			{Name: "insjson", Quick: 1500, Thorough: 60000, Run: c15InsJSON},
+			{Name: "insjs", Quick: 1500, Thorough: 60000, Run: c15InsJS},
 		},
 	})
 }
